@@ -31,7 +31,15 @@ pub fn run(op: &str, case: &Value) -> Result<Value> {
             let mut inst: v1::Instance = msg(&case["instance"])?;
             let s1: v1::State = msg(&case["s1"])?;
             let s2: v1::State = msg(&case["s2"])?;
-            match inst.partial_evaluate(&s1) {
+            let mut r1 = inst.partial_evaluate(&s1);
+            if let (Ok(u1), Some(_)) = (&mut r1, case["s1b"].as_str()) {
+                let s1b: v1::State = msg(&case["s1b"])?;
+                match inst.partial_evaluate(&s1b) {
+                    Ok(mut u2) => u1.append(&mut u2),
+                    Err(e) => return Ok(errv(e)),
+                }
+            }
+            match r1 {
                 Ok(used) => {
                     let mut out = json!({"instance": enc(&inst), "used": ids(used)});
                     match inst.evaluate(&s2) {
@@ -61,6 +69,27 @@ pub fn run(op: &str, case: &Value) -> Result<Value> {
                 for (k, v) in case["deps"].as_object().ok_or_else(|| anyhow!("deps"))? {
                     inst.decision_variable_dependency.insert(k.parse()?, msg(v)?);
                 }
+                let r = match inst.evaluate(&st) {
+                    Ok((sol, _)) => {
+                        let mut ents: Vec<(u64, f64)> = sol.state.unwrap_or_default().entries.into_iter().collect();
+                        ents.sort_by(|a, b| a.0.cmp(&b.0));
+                        json!({"ok": ents.iter().map(|(k, v)| json!([k, fj(*v)])).collect::<Vec<_>>()})
+                    }
+                    Err(_) => json!({"err": true}),
+                };
+                if !variants.contains(&r) {
+                    variants.push(r);
+                }
+            }
+            json!({"variants": variants})
+        }
+        "evaluate_instance_orders" => {
+            // Instance::evaluate repeated with freshly decoded messages (fresh HashMap RandomState each time):
+            // every distinct outcome over the iteration orders met is reported
+            let st: v1::State = msg(&case["state"])?;
+            let mut variants: Vec<Value> = vec![];
+            for _ in 0..case["tries"].as_u64().unwrap_or(300) {
+                let inst: v1::Instance = msg(&case["instance"])?;
                 let r = match inst.evaluate(&st) {
                     Ok((sol, _)) => {
                         let mut ents: Vec<(u64, f64)> = sol.state.unwrap_or_default().entries.into_iter().collect();
@@ -124,6 +153,50 @@ pub fn run(op: &str, case: &Value) -> Result<Value> {
             let r = if op == "penalty_method" { inst.penalty_method() } else { inst.uniform_penalty_method() };
             match r {
                 Ok(p) => json!({"ok": {"parametric": enc(&p)}}),
+                Err(e) => errv(e),
+            }
+        }
+        "with_parameters" => {
+            let p: v1::ParametricInstance = msg(&case["parametric"])?;
+            let params: v1::Parameters = msg(&case["parameters"])?;
+            match p.with_parameters(params) {
+                Ok(i) => json!({"ok": {"instance": enc(&i)}}),
+                Err(e) => errv(e),
+            }
+        }
+        "pubo" => {
+            let inst: v1::Instance = msg(&case["instance"])?;
+            match inst.as_pubo_format() {
+                Ok(m) => {
+                    let terms: Vec<Value> = m.iter().map(|(k, c)| json!([k.iter().cloned().collect::<Vec<u64>>(), fj(*c)])).collect();
+                    json!({"ok": {"terms": terms}})
+                }
+                Err(e) => errv(e),
+            }
+        }
+        "qubo" => {
+            let inst: v1::Instance = msg(&case["instance"])?;
+            match inst.as_qubo_format() {
+                Ok((m, off)) => {
+                    let terms: Vec<Value> = m.iter().map(|(k, c)| json!([[k.0, k.1], fj(*c)])).collect();
+                    json!({"ok": {"terms": terms, "offset": fj(off)}})
+                }
+                Err(e) => errv(e),
+            }
+        }
+        "as_minimization" => {
+            let mut inst: v1::Instance = msg(&case["instance"])?;
+            inst.as_minimization_problem();
+            let once = enc(&inst);
+            inst.as_minimization_problem();
+            json!({"ok": {"once": once, "twice": enc(&inst)}})
+        }
+        "best_feasible" => {
+            let ss: v1::SampleSet = msg(&case["sample_set"])?;
+            let unrelaxed = case["unrelaxed"].as_bool().unwrap_or(false);
+            let r = if unrelaxed { ss.best_feasible_unrelaxed_id() } else { ss.best_feasible_id() };
+            match r {
+                Ok(id) => json!({"ok": {"id": id}}),
                 Err(e) => errv(e),
             }
         }
